@@ -290,13 +290,49 @@ def run_shard(spec, ctx):
                 ctx.fail('coarser_children_returned', case, bad_b=bad_b, out=out[:3])
             except ValueError:
                 ctx.count('error_paths_raised')
+            if n % 2 == 1:
+                # ... and right after a valid request for that level made on the ancestor of c two levels above it
+                try:
+                    anc = a5.cell_to_parent(c, max(-1, bad_b - 2))
+                    if a5.get_resolution(anc) <= bad_b <= a5.get_resolution(anc) + 4:
+                        a5.cell_to_children(anc, bad_b)
+                except Exception as e:
+                    ctx.fail('children_raises', case, bad_b=bad_b, exc=repr(e))
+                try:
+                    out = a5.cell_to_children(c, bad_b)
+                    ctx.fail('coarser_children_returned', case, bad_b=bad_b, out=out[:3], after_valid_request_on_ancestor=True)
+                except ValueError:
+                    ctx.count('error_paths_raised_after_related_request')
         if rc < 29:
-            bad_a = ctx.rnd.randint(rc + 1, 29)
+            bad_a = ctx.rnd.randint(rc + 1, 29) if ctx.rnd.random() < 0.5 else ctx.rnd.randint(rc + 1, min(29, rc + 4))
             try:
                 out = a5.cell_to_parent(c, bad_a)
                 ctx.fail('finer_parent_returned', case, bad_a=bad_a, out=out)
             except ValueError:
                 ctx.count('error_paths_raised')
+            if n % 2 == 0:
+                # the same out-of-order request right after a valid request for the same target level made on a descendant of c
+                # (one per first step below c; then first / last / random children down to the level asked for or beyond it)
+                first = a5.cell_to_children(c)
+                for x in first:
+                    style = ctx.rnd.choice(('first', 'first', 'last', 'random'))
+                    bx = min(29, bad_a + ctx.rnd.choice((0, 0, 1, 3)))
+                    try:
+                        for _lvl in range(a5.get_resolution(x), bx):
+                            k = a5.cell_to_children(x)
+                            x = k[0] if style == 'first' else (k[-1] if style == 'last' else ctx.rnd.choice(k))
+                        pa = a5.cell_to_parent(x, bad_a)
+                        if a5.get_resolution(pa) != bad_a or a5.cell_to_parent(pa, rc) != c:
+                            ctx.fail('parent_of_descendant', case, x=x, bad_a=bad_a, parent=pa)
+                        a5.cell_to_parent(x, bad_a)
+                    except Exception as e:
+                        ctx.fail('parent_raises', case, x=x, bad_a=bad_a, exc=repr(e))
+                        continue
+                    try:
+                        out = a5.cell_to_parent(c, bad_a)
+                        ctx.fail('finer_parent_returned', case, bad_a=bad_a, out=out, after_valid_request_on=x)
+                    except ValueError:
+                        ctx.count('error_paths_raised_after_related_request')
         try:
             out = a5.cell_to_parent(c, ctx.rnd.randint(-5, -2))
             ctx.fail('negative_parent_returned', case, out=out)
